@@ -277,3 +277,36 @@ def maps(ctx, d):
             ctx.require(got == float("inf"), "map-undefined", lambda: f"{nm} = {got} although no label has a defined AP")
         else:
             ctx.require(abs(got - float(ref)) <= TOL, "map-mean-of-defined", lambda: f"{nm} {got} vs mean of defined APs {float(ref)} ({d['buckets']})")
+
+
+# ---- (c2) scenes through the real manager: frame-level and scene-level MetricsScore ---------------
+
+
+def _mgr_cases(tier):
+    from vlib import mgrlib as MG
+
+    return MG.manager_cases(tier, tasks=("detection", "tracking"), max_frames=3)
+
+
+@CHECK.given("manager_scenes", _mgr_cases, quick=90, thorough=4000)
+def manager_scenes(ctx, d):
+    from vlib import mgrlib as MG
+    from vlib import scorelib as SL
+
+    run = MG.run_case(ctx, d)
+    if run is None:
+        return
+    targets, pol = d["targets"], d["policy"]
+    labels_with_results = set()
+    for i, res in enumerate(run["results"]):
+        SL.check_maps(ctx, res.metrics_score.maps, [res], targets, pol, "frame")
+        for r in res.object_results:
+            labels_with_results.add(r.estimated_object.semantic_label.label.value)
+    scene = None
+    with ctx.under_test("get_scene_result"):
+        scene = run["mgr"].get_scene_result()
+    if scene is not None:
+        SL.check_maps(ctx, scene.maps, run["mgr"].frame_results, targets, pol, "scene")
+    ctx.cls("frame_" + d["frame"])
+    ctx.cls("policy_" + d["policy"])
+    ctx.mark_nontrivial(len(labels_with_results & set(targets)) >= 2)
